@@ -3,7 +3,9 @@
 set -e
 cd "$(dirname "$0")/harness"
 export GOFLAGS=-mod=mod GOPROXY=off GOSUMDB=off GOTOOLCHAIN=local
-go vet -tags verif ./internal/... 
+go vet -tags verif ./internal/...
+# the reference models check themselves against published vectors (RFC 9000 A.1, RFC 9380 K.1/K.3, RFC 5869 A.1, RFC 8032 test 1)
+go test -count=1 ./internal/ref/
 for d in c[0-9][0-9]; do
   [ -d "$d" ] || continue
   go test -c -tags verif -o /dev/null ./$d/
